@@ -321,8 +321,10 @@ def arcovar(x, order):
 
     # Estimate the input white noise variance
     Cz = np.dot(X1.conj().transpose(), Xc)
-    e = np.dot(X1.conj().transpose(), X1) + np.dot(Cz, a)
-    assert e.imag < 1e-4, 'wierd behaviour'
+    energy = np.dot(X1.conj().transpose(), X1)
+    e = energy + np.dot(Cz, a)
+    # the imaginary part is rounding noise: small relative to the signal energy
+    assert abs(e.imag) <= 1e-4 * abs(energy), 'wierd behaviour'
     e = float(e.real) # ignore imag part that should be small
 
     return a, e
